@@ -165,6 +165,14 @@ func (e *Enc) bindCallee(ci *calleeInfo, ctx *evalCtx) {
 	for i, a := range ci.args {
 		ctx.bind[fmt.Sprintf("$%d", i)] = TV{T: e.term(a), Typ: a.Type(), Sort: e.st.sortOf(a.Type())}
 	}
+	// a receiver that is the address of a field (&x.f): `owner` names x
+	if len(ci.args) > 0 {
+		if l, ok := e.lv[ci.args[0]]; ok && !l.elems && len(l.path) >= 1 && !l.path[0].isIdx {
+			if _, isS := l.root.Underlying().(*types.Struct); isS {
+				ctx.bind["owner"] = TV{T: l.base, Typ: types.NewPointer(l.root), Sort: "Ref"}
+			}
+		}
+	}
 	if ci.fn != nil && (len(ci.fn.Params) > 0 || len(ci.fn.FreeVars) > 0 || len(ci.fn.Blocks) > 0) {
 		for i, p := range ci.fn.Params {
 			if i < len(ci.args) {
@@ -337,7 +345,7 @@ func (e *Enc) encBuiltin(v ssa.Value, c *ssa.CallCommon, ci *calleeInfo, st *Sta
 		var t string
 		switch xt := c.Args[0].Type().Underlying().(type) {
 		case *types.Basic:
-			t = fmt.Sprintf("(str.len %s)", x)
+			t = fmt.Sprintf("(gs.len %s)", x)
 		case *types.Slice:
 			if name == "len" {
 				t = fmt.Sprintf("(sl.len %s)", x)
@@ -437,8 +445,8 @@ func (e *Enc) encAppend(v ssa.Value, c *ssa.CallCommon, st *State) {
 		}
 	case *types.Basic: // append([]byte, string...)
 		ys := e.term(y)
-		addLen = fmt.Sprintf("(str.len %s)", ys)
-		e.assume(fmt.Sprintf("(forall ((i %s)) (! (=> (and (idx.le idx.zero i) (idx.lt i (str.len %s))) (= (select %s (idx.add (sl.len %s) i)) (str.at %s i))) :pattern ((select %s (idx.add (sl.len %s) i)))))", idx, ys, arr, s, ys, arr, s))
+		addLen = fmt.Sprintf("(gs.len %s)", ys)
+		e.assume(fmt.Sprintf("(forall ((i %s)) (! (=> (and (idx.le idx.zero i) (idx.lt i (gs.len %s))) (= (select %s (idx.add (sl.len %s) i)) (gs.at %s i))) :pattern ((select %s (idx.add (sl.len %s) i)))))", idx, ys, arr, s, ys, arr, s))
 		_ = yt
 	default:
 		addLen = e.freshConst("applen", idx)
@@ -469,8 +477,8 @@ func (e *Enc) encCopy(v ssa.Value, c *ssa.CallCommon, st *State, guard string) {
 			return fmt.Sprintf("(select (select %s (sl.arr %s)) (idx.add (sl.off %s) %s))", all, src, src, i)
 		}
 	default:
-		srcLen = fmt.Sprintf("(str.len %s)", src)
-		srcAt = func(i string) string { return fmt.Sprintf("(str.at %s %s)", src, i) }
+		srcLen = fmt.Sprintf("(gs.len %s)", src)
+		srcAt = func(i string) string { return fmt.Sprintf("(gs.at %s %s)", src, i) }
 	}
 	n := e.freshConst("copyn", idx)
 	e.assume(fmt.Sprintf("(= %s (ite (idx.lt (sl.len %s) %s) (sl.len %s) %s))", n, dst, srcLen, dst, srcLen))
